@@ -27,7 +27,7 @@ COQ_MODELS = ['MEffects']
 COQ_HEADER = 'From KV Require Import Eqb Str.\nFrom KV.Model Require Import MEffects.'
 CASE_TYPE = 'MEffects.case'
 CHECK_FN = 'MEffects.check_case'
-SHARD_SIZE = 40
+SHARD_SIZE = 20
 CASE_TIMEOUT = 60
 MARKER = 'C16_MARKER'
 
@@ -318,6 +318,7 @@ ASSUMPTIONS = ['kapture_from_dir is called with its defaults (no skip_list, no t
                'the dataset root exists and is a directory; files are valid UTF-8',
                'upgrade inputs with global features / descriptors / matches / observations also have keypoints '
                '(the keypoints_type-is-None assertions are property C20)',
+               'a name field used as folder name by the upgrade is at most 200 bytes (NAME_MAX of the host is not modelled)',
                'directory-level events (listdir/scandir/mkdir/rmdir) are judged by the oracle (must stay under the root; '
                'none that modifies on load) but are not part of the trace compared with the model']
 EXHAUSTIVE = {'quick': False, 'thorough': False}
@@ -772,7 +773,21 @@ def gen_cases(rng, tier):
                       'up_types': [None, None, None] if op == 'upgrade' else None,
                       'label': {'target': None, 'pclass': 'multi', 'payload': '', 'variant': 'full' if op == 'load' else 'v10',
                                 'note': 'several fields'}})
-    return cases
+    return [c for c in cases if not _name_too_long(c)]
+
+
+def _name_too_long(case):
+    """upgrade inputs whose name field (a future folder name) exceeds what the host file system accepts as one
+    component are left out: NAME_MAX is a property of the host, not of kapture"""
+    if case['op'] != 'upgrade':
+        return False
+    for kind, (dname, cfg, _, _) in FEAT.items():
+        t = case['files'].get('%s/%s' % (dname, cfg))
+        if t is not None:
+            lines, idx = _data_lines(t)
+            if idx and len(lines[idx[0]].split(',')[0].strip().encode('utf-8')) > 200:
+                return True
+    return False
 
 
 # ---------------------------------------------------------------- running one case
@@ -794,23 +809,69 @@ def _snapshot(base):
 _FORBIDDEN = ('Spawn', 'Import', 'Eval', 'Net')
 
 
+_DISK = {}      # sandbox -> what the last snapshot found there (so that the next case only writes the differences)
+
+
+def _desired(case):
+    want = {}
+    for rel, text in case['files'].items():
+        want['ds/' + rel] = text.encode('utf-8')
+    for rel in case['bins']:
+        want['ds/' + rel] = b'{}' if rel.endswith('.json') else b'\0' * 16
+    dirs = {'ds/'}
+    for rel in want:
+        parts = rel.split('/')[:-1]
+        for i in range(1, len(parts) + 1):
+            dirs.add('/'.join(parts[:i]) + '/')
+    for d in dirs:
+        want[d] = 'dir'
+    return want
+
+
+def _sync(base, want):
+    """make the sandbox equal to [want], touching only what differs from the last snapshot of it"""
+    have = _DISK.get(base)
+    if have is None or not os.path.isdir(base):
+        shutil.rmtree(base, ignore_errors=True)
+        os.makedirs(base)
+        have = {}
+    for rel in sorted((k for k in have if k not in want or (want[k] == 'dir') != (have[k] == 'dir')), key=len, reverse=True):
+        p = os.path.join(base, rel.rstrip('/'))
+        if have[rel] == 'dir' and not os.path.islink(p):
+            shutil.rmtree(p, ignore_errors=True)
+        else:
+            try:
+                os.unlink(p)
+            except OSError:
+                pass
+        have = {k: v for k, v in have.items() if not (k == rel or (rel.endswith('/') and k.startswith(rel)))}
+    for rel in sorted(k for k, v in want.items() if v == 'dir' and k not in have):
+        os.makedirs(os.path.join(base, rel.rstrip('/')), exist_ok=True)
+    for rel, data in want.items():
+        if data != 'dir' and have.get(rel) != data:
+            with open(os.path.join(base, rel), 'wb') as f:
+                f.write(data)
+    _DISK[base] = dict(want)
+
+
 def run_impl(case, ctx):
     base = os.path.join(ctx['tmp'], 'c')
-    shutil.rmtree(base, ignore_errors=True)
     root = os.path.join(base, 'ds')
-    os.makedirs(root)
-    _write_tree(root, case['files'], case['bins'])
-    before = _snapshot(base)
+    before = _desired(case)
+    _sync(base, before)
     w = _worker(ctx)
     try:
         res = w.request({'cmd': 'case', 'op': case['op'], 'root': root, 'base': base, 'up_types': case.get('up_types')})
     except Exception as e:
         w.stop()
+        marker = os.path.lexists(os.path.join(base, MARKER))
+        _DISK.pop(base, None)
         shutil.rmtree(base, ignore_errors=True)
         return {'died': str(e), 'outcome': 'error', 'exc': 'the interpreter running the implementation terminated',
                 'effects': [['Eval', None, 'interpreter terminated']], 'dir_events': [], 'leaf_events': [],
-                'marker': os.path.lexists(os.path.join(base, MARKER)), 'changed': [], 'changed_outside': [], 'leaves': None}
+                'marker': marker, 'changed': [], 'changed_outside': [], 'leaves': None}
     after = _snapshot(base)
+    _DISK[base] = after
     marker = os.path.lexists(os.path.join(base, MARKER))
     changed = sorted(k for k in set(before) | set(after) if before.get(k) != after.get(k))
     changed_outside = [k for k in changed if not (k == 'ds/' or k.startswith('ds/'))]
@@ -833,7 +894,6 @@ def run_impl(case, ctx):
                      (k == 'Eval' and d.startswith('compile:') and not re.fullmatch(r'compile:[A-Za-z0-9_.]*', d))
                      for k, _, d in effects):
         w.stop()          # whatever ran may have changed the interpreter state: next case gets a fresh worker
-    shutil.rmtree(base, ignore_errors=True)
     return obs
 
 
